@@ -860,6 +860,11 @@ func init() {
 			ln := e.st.BVu(uint64(n), e.intw)
 			return &SliceV{P: ptrTo(o, 0, e.st.True()), Len: ln, Cap: ln}
 		},
+		// a fresh integer symbol whose name does not depend on harness state (harness counters become symbolic
+		// when the branches of a fork advance them differently)
+		"vZfreshAuto": func(e *Engine, fr *Frame, s *State, f *ssa.Function, args []Value, pos string) Value {
+			return e.st.Sym(fmt.Sprintf("%s!%d", constStr(args[0], "prefix"), e.H.nextSym()), IntSort)
+		},
 		"vZfresh": func(e *Engine, fr *Frame, s *State, f *ssa.Function, args []Value, pos string) Value {
 			return e.st.Sym(constStr(args[0], "name"), IntSort)
 		},
